@@ -104,7 +104,7 @@ struct Universe {
     seg_binary_order: Vec<(usize, bool)>,
 }
 
-fn ident(k: usize) -> Value {
+fn ident_full(k: usize) -> Value {
     json!({
         "cas": format!("{}-{:02}-{}", 100 + k, (k * 7) % 100, k % 10),
         "name": format!("substance {k}"),
@@ -113,6 +113,24 @@ fn ident(k: usize) -> Value {
         "inchi": format!("InChI=1/C{}H{}", k + 2, 2 * k + 6),
         "formula": format!("C{}H{}", k + 2, 2 * k + 6),
     })
+}
+
+/// the identifier as stored: some substances lack some kinds of identifier (a query by that kind
+/// must then fail for them, and a binary record cannot be matched through it)
+fn ident(k: usize) -> Value {
+    let mut v = ident_full(k);
+    let m = v.as_object_mut().unwrap();
+    if k % 4 == 3 {
+        m.remove("smiles");
+        m.remove("inchi");
+    }
+    if k % 5 == 2 {
+        m.remove("iupac_name");
+    }
+    if k % 7 == 5 {
+        m.remove("cas");
+    }
+    v
 }
 
 /// unique value generator: every number in a universe is different, so every returned
@@ -582,7 +600,8 @@ struct Env<'a> {
 }
 
 fn name_of(env: &Env, k: usize) -> String {
-    id_of(&env.uni.pure[k], env.sc.id_kind).unwrap()
+    // (the identifier the user would type, whether or not the stored record has it)
+    ident_full(k)[ID_KINDS[env.sc.id_kind]].as_str().unwrap().to_string()
 }
 
 fn compare<P: Behave>(out: &mut RunOutcome, dg: &mut Digest, what: &str, lib: Result<P, String>, reference: Result<P, String>, faulted: bool)
@@ -641,13 +660,16 @@ where
         out.steps += 1;
         let what = |s: &str| format!("{} query {qi} {s} ({:?}, id kind {})", MODEL_NAMES[env.sc.model], q, ID_KINDS[kind]);
         match q {
-            Query::Json { subs, split: _, with_binary } => {
+            Query::Json { subs, split, with_binary } => {
                 // group the query by holding file, keeping the requested order inside each group;
                 // from_multiple_json returns the groups in the order given
                 let mut groups: Vec<(Vec<String>, PathBuf)> = Vec::new();
                 for &k in subs {
                     let f = env.disk.path(&env.pure_files[holder(k)]);
-                    match groups.iter_mut().find(|g| g.1 == f) {
+                    // `split`: entries strictly in request order, only adjacent substances of one file
+                    // share an entry, so the same file can be named in several entries
+                    let slot = if *split >= 2 { groups.last_mut().filter(|g| g.1 == f) } else { groups.iter_mut().find(|g| g.1 == f) };
+                    match slot {
                         Some(g) => g.0.push(name_of(env, k)),
                         None => groups.push((vec![name_of(env, k)], f)),
                     }
@@ -739,6 +761,12 @@ where
             Query::Records { subs } => {
                 // records handed over in query order; binary records as a list in file order
                 let pure: Vec<Value> = subs.iter().map(|&k| env.uni.pure[k].clone()).collect();
+                // binary_matrix_from_records documents (expect) that every pure record carries the
+                // chosen kind of identifier
+                if pure.iter().any(|v| id_of(v, kind).is_none()) {
+                    out.count("window.record_without_the_chosen_identifier", 1);
+                    continue;
+                }
                 let recs: Result<Vec<PureRecord<P::Pure>>, _> = pure.iter().map(|v| serde_json::from_value(v.clone())).collect();
                 let Ok(recs) = recs else { continue };
                 let blist: Vec<Value> = binary_file_value(env.uni).as_array().cloned().unwrap_or_default();
@@ -806,7 +834,26 @@ where
                 let picked: Vec<usize> = pick.iter().map(|&p| subs[p]).collect();
                 let ppure: Vec<Value> = picked.iter().map(|&k| env.uni.pure[k].clone()).collect();
                 out.count("op.subset", 1);
+                // a subset of the subset (positions reversed, one dropped): component lists that are not
+                // contiguous in the original, records() of an object that is itself a subset
+                let second = match (&lib, pick.len() >= 2) {
+                    (Ok(first), true) => {
+                        let mut pick2: Vec<usize> = (0..pick.len()).rev().collect();
+                        if pick2.len() > 2 {
+                            pick2.pop();
+                        }
+                        let lib2 = std::panic::catch_unwind(std::panic::AssertUnwindSafe(|| first.subset(&pick2))).map_err(|_| take_last_panic().unwrap_or_default());
+                        let picked2: Vec<usize> = pick2.iter().map(|&p| picked[p]).collect();
+                        Some((lib2, picked2))
+                    }
+                    _ => None,
+                };
                 compare(out, dg, &what("subset"), lib, build_ref::<P>(&ppure, &full(&picked)), false);
+                if let Some((lib2, picked2)) = second {
+                    let ppure2: Vec<Value> = picked2.iter().map(|&k| env.uni.pure[k].clone()).collect();
+                    out.count("op.subset_of_subset", 1);
+                    compare(out, dg, &what("subset of subset"), lib2, build_ref::<P>(&ppure2, &full(&picked2)), false);
+                }
             }
             Query::RoundTrip { subs } => {
                 for &k in subs {
@@ -994,7 +1041,7 @@ fn run_segments(env: &Env, out: &mut RunOutcome, dg: &mut Digest) {
         // reference data = what the bytes on disk say now
         let gc = load_gc(env, segfile, wb);
         let mol_names: Vec<String> = match q {
-            Query::Segments { mols, .. } | Query::Hetero { mols, .. } => mols.iter().map(|&k| id_of(&uni.molecules[k], kind).unwrap()).collect(),
+            Query::Segments { mols, .. } | Query::Hetero { mols, .. } => mols.iter().map(|&k| ident_full(k)[ID_KINDS[kind]].as_str().unwrap().to_string()).collect(),
             _ => vec![],
         };
         // resolve the queried molecules and their segments in the on-disk data
